@@ -233,15 +233,16 @@ def C02_fragment_full (wf : List CoreSheet.CRow → Prop) : Prop :=
 
 /-- a row: id, type, edges (`from`, condition value), the content of its action; optional: the
 `no_response` cell, the expression, a variable / category name on its conditional edges, a given
-node identifier, a different action content in the documentation's table -/
+node identifier, a different action content in the documentation's table, the destinations of a
+`go_to` row, a node name -/
 def mkRow (id type : String) (edges : List (String × String)) (act : Option String) (nr : String := "")
     (expr : String := "") (var : String := "") (name : String := "") (uuid : String := "")
-    (ract : Option String := none) (dests : List String := []) : CoreSheet.CRow :=
+    (ract : Option String := none) (dests : List String := []) (nname : String := "") : CoreSheet.CRow :=
   { row := { rowId := id.toList, type := type.toList,
              edges := edges.map (fun (f, v) => ⟨f.toList, ⟨v.toList, if v = "" then [] else var.toList, [],
                                                           if v = "" then [] else name.toList⟩⟩),
              action := act.map String.toList, actionOk := true, ownAction := none, nodeUuid := uuid.toList,
-             nodeName := [], saveName := "res".toList, noResponse := nr.toList, expression := expr.toList,
+             nodeName := nname.toList, saveName := "res".toList, noResponse := nr.toList, expression := expr.toList,
              flowName := [], dests := dests.map String.toList, resultKey := none, nodeOk := true },
     refAct := (match ract with | some x => some x | none => act).map String.toList }
 
@@ -622,6 +623,29 @@ example :
                  mkRow "n" "no_op" [("a", "")] none,
                  mkRow "x" "send_message" [("n", "1")] (some "X")] (fun _ => 0) 4 = none) :=
   ⟨by decide +kernel, by decide +kernel, by decide +kernel, by decide +kernel, by decide +kernel, by decide +kernel⟩
+
+/-! ##### rows merged into an existing node by node name -/
+
+/-- the recorded finding **F-C02-d** (the sheet of `harness/props/c02.py F_C02_D`): a `go_to` row that
+names a row MERGED into an existing node enters that node at its first action — after the answer
+"again" the compiled flow performs `first action` once more, the rows continue at `second action` -/
+theorem merged_row_entered_replays_earlier_actions :
+    refuted [mkRow "a" "send_message" [("start", "")] (some "first action") (nname := "X"),
+             mkRow "b" "send_message" [("a", "")] (some "second action") (nname := "X"),
+             mkRow "w" "wait_for_response" [("b", "")] none,
+             mkRow "" "go_to" [("w", "again")] none (dests := ["b"])] 4 = true := by
+  decide +kernel
+
+/-- the recorded finding **F-C02-e** (the sheet of `harness/props/c02.py F_C02_E`): an action row that
+carries the node name of a `wait_for_response` row and follows it unconditionally is merged into the
+ROUTER node — the compiled flow performs its action BEFORE waiting, the rows say after the wait, on the
+default branch -/
+theorem action_merged_into_router_runs_before_decision :
+    refuted [mkRow "a" "send_message" [("start", "")] (some "hello"),
+             mkRow "w" "wait_for_response" [("a", "")] none (nname := "X"),
+             mkRow "b" "send_message" [("w", "")] (some "after the wait") (nname := "X"),
+             mkRow "c" "send_message" [("w", "yes")] (some "on yes")] 2 = true := by
+  decide +kernel
 
 /-- T1: the tests without argument of the reference interpretation are the source's
 `RouterCase.NO_ARGS_TESTS` (re-extracted on every run). -/
